@@ -111,8 +111,17 @@ Definition date_compact_layout (s : bytes) : bool :=
   end.
 Definition has_letter (s : bytes) : bool := existsb (fun b => is_upper b || is_lower b) s.
 
+(* time.Parse treats a run of spaces in the value as one space of the layout *)
+Fixpoint collapse_spaces (s : bytes) : bytes :=
+  match s with
+  | [] => []
+  | x :: r => if x =? 32 then match r with 32 :: _ => collapse_spaces r | _ => x :: collapse_spaces r end
+              else x :: collapse_spaces r
+  end.
+
 (* Some true = parses, Some false = error, None = outside the model (may be an RFC 5322 form) *)
-Definition parse_date_ok (s : bytes) : option bool :=
+Definition parse_date_ok (s0 : bytes) : option bool :=
+  let s := collapse_spaces s0 in
   match s with
   | [] => Some true
   | _ =>
